@@ -806,6 +806,45 @@ impl DiscoveryDB {
   }
 }
 
+// Verification hooks: simulated time and read-only views of private state.
+#[cfg(rustdds_verif)]
+impl DiscoveryDB {
+  /// Makes every stored participant life sign `d` older, i.e. lets `d` of
+  /// simulated time pass without sleeping.
+  pub(crate) fn verif_age(&mut self, d: std::time::Duration) {
+    for ts in self.participant_last_life_signs.values_mut() {
+      *ts = ts
+        .checked_sub(d)
+        .expect("verif_age: Instant out of range");
+    }
+  }
+
+  /// (GUID, topic name) of the readers and writers currently parked in the
+  /// attic.
+  pub(crate) fn verif_attic(&self) -> (Vec<(GUID, String)>, Vec<(GUID, String)>) {
+    (
+      self
+        .external_topic_readers_attic
+        .iter()
+        .map(|(g, d)| (*g, d.subscription_topic_data.topic_name().clone()))
+        .collect(),
+      self
+        .external_topic_writers_attic
+        .iter()
+        .map(|(g, d)| (*g, d.publication_topic_data.topic_name.clone()))
+        .collect(),
+    )
+  }
+
+  /// (default lease duration, lease tolerance) as compiled.
+  pub(crate) fn verif_lease_constants() -> (Duration, Duration) {
+    (
+      DEFAULT_PARTICIPANT_LEASE_DURATION,
+      PARTICIPANT_LEASE_DURATION_TOLERANCE,
+    )
+  }
+}
+
 #[cfg(test)]
 mod tests {
   use std::{sync::Mutex, time::Duration as StdDuration};
